@@ -6,6 +6,8 @@ R3 rotation loop (shared with C04.R3, re-evaluated there); R4 the FFT image of t
 row of every bk[i] and copies every key-switch cell; R5 the pointwise Lagrange kernels of every back-end compute the
 complex product / accumulate (lane-symbolic evaluation of the fma and avx assembly against the C++ siblings).
 Not decided: the error bound of the product; FFT accuracy (C10).
+R6 the gadget digits that both external products multiply the rows with are balanced, tile the kept bits and
+recompose (C12's rules re-evaluated): the analytic error bound assumes |digit| <= Bg/2.
 """
 from sa import asm, summ, sym
 from sa.facts import Program
@@ -139,6 +141,10 @@ def run(chk):
     for v in prog.variants():
         vn = v.name
         chk.analysed["variants"] = chk.analysed.get("variants", 0) + 1
+        # ---------------- R6 the digits fed to both external products are balanced and recompose (C12's rules): the analytic
+        # error bound of the product (sum over rows of digit^2 * row noise) assumes |digit| <= Bg/2
+        from rules import c04, c12
+        c12.check_variant(c04._Sub(chk, "R6"), v)
         # ---------------- R1 coefficient external product
         f = v.fn("tGswExternMulToTLwe")
         ps, _ = summ.pieces(v, f, hooks=NOINLINE)
